@@ -2,6 +2,7 @@ package sym
 
 import (
 	"fmt"
+	"net/url"
 	"path"
 	"sort"
 
@@ -282,6 +283,35 @@ func (e *Engine) EnableStubs(set string) {
 				return IntV{T: smt.Ite(v.(*smt.Term), smt.Int(1), smt.Int(0)), Small: true}
 			}
 			return mkInt(0)
+		}
+		// generator options are observed (base path)
+		I["github.com/vkd/goag/generator.BasePath"] = func(p *Path, a []Value, site ssa.Instruction) Value {
+			p.side["obs:basePath"] = a[0]
+			return FuncV{Intr: "noop"}
+		}
+		I["noop"] = func(p *Path, a []Value, site ssa.Instruction) Value { return nil }
+		for _, opt := range []string{"PackageName", "SkipDoNotEdit", "SpecFilename", "IfOption"} {
+			I["github.com/vkd/goag/generator."+opt] = func(p *Path, a []Value, site ssa.Instruction) Value { return FuncV{Intr: "noop"} }
+		}
+		I["vrt.Observed"] = func(p *Path, a []Value, site ssa.Instruction) Value {
+			v, ok := p.side["obs:"+p.constStrArg(a[0], "vrt.Observed")]
+			if !ok {
+				return StrV{}
+			}
+			return v
+		}
+		I["net/url.Parse"] = func(p *Path, a []Value, site ssa.Instruction) Value {
+			raw := p.constStrArg(a[0], "url.Parse argument")
+			u, err := url.Parse(raw)
+			if err != nil {
+				return TupleV{E: []Value{PtrV{}, p.mkErr(constStr(err.Error()), nil)}}
+			}
+			t := p.E.namedType("net/url", "URL")
+			uv := p.zero(t).(StructV)
+			uv.F[fieldIndex(t, "Path")] = constStr(u.Path)
+			uv.F[fieldIndex(t, "Host")] = constStr(u.Host)
+			uv.F[fieldIndex(t, "Scheme")] = constStr(u.Scheme)
+			return TupleV{E: []Value{PtrV{Obj: p.newObj(t, uv)}, IfaceV{}}}
 		}
 		I["vrt.SetHasComponents"] = func(p *Path, a []Value, site ssa.Instruction) Value {
 			p.side["hasComponents"] = a[0].(BoolV).T
